@@ -42,7 +42,7 @@ def profile(tier):
                     "delay": 2, "phase_shift": 2, "target": 5, "eom": 4,
                     "add_dmm": 5, "detmap": 2, "slm": 2},
         "device": dev,
-        "register": gen.register_specs(n=(1, 5)),
+        "register": st.one_of(gen.register_specs(n=(1, 5)), gen.register_specs(n=(2, 5), tiny_noise=True)),
     }
 
 
